@@ -14,6 +14,8 @@ ROOT = "/verif"
 # SEED_EVAL_REPO: evaluate in a scratch worktree instead of /repo itself (checks then import y0 through PYTHONPATH)
 REPO = os.environ.get("SEED_EVAL_REPO", "/repo")
 env = dict(os.environ, PYTHONPATH=f"{REPO}/src", PYTHONDONTWRITEBYTECODE="1")
+if REPO != "/repo":
+    env["VERIF_EVIDENCE_DIR"] = "/tmp/seed_eval_evidence"  # never overwrite /verif/evidence from a patched tree
 
 
 def sh(cmd, **kw):
@@ -43,7 +45,8 @@ try:
     meta["baseline_ok"] = b.returncode == 0
     for c in checks:
         tier = os.environ.get("VERIF_TIER", "quick")
-        r = sh(f"cd {ROOT} && PYTHONPATH={REPO}/src ./vcheck {c} --tier {tier}")
+        ev = f"VERIF_EVIDENCE_DIR={env['VERIF_EVIDENCE_DIR']} " if "VERIF_EVIDENCE_DIR" in env else ""
+        r = sh(f"cd {ROOT} && {ev}PYTHONPATH={REPO}/src ./vcheck {c} --tier {tier}")
         lines = [l for l in r.stdout.splitlines() if l.startswith("VIOLATION") or l.startswith("[")]
         meta["ran"].append({"check": c, "tier": tier, "rc": r.returncode, "detected": r.returncode == 1 and any(l.startswith("VIOLATION") for l in lines), "first_lines": lines[:3]})
 finally:
